@@ -107,6 +107,8 @@ type Ctx struct {
 	nPkgs    int
 	nFuncs   int
 	zfuncs   []*ssa.Function
+	es       *ES
+	esv      *esVerdicts
 }
 
 func die(format string, a ...interface{}) {
